@@ -175,6 +175,13 @@ where
             .await
             .map_err(|e| self.handle_quic_stream_error(e))?;
 
+        // Opening the stream may have waited for stream credit. A GOAWAY processed in the
+        // meantime forbids the new request (RFC 9114 section 5.2): check again before anything
+        // is written. The unused stream is dropped.
+        if let Some(error) = self.check_peer_connection_closing() {
+            return Err(error);
+        };
+
         //= https://www.rfc-editor.org/rfc/rfc9114#section-4.2
         //= type=TODO
         //# Characters in field names MUST be
